@@ -280,8 +280,13 @@ def whole_runs(chk):
     # entries that are not analysed are part of the directory content too: wherever the listing puts them, the report is the same
     files.update({'Probe.t.sol': probe, 'README.md': '# readme\n', 'sub/abi.json': '{}\n', 'sub/Setup.t.sol': dl.file_text(['sstore', 'floating_pragma'], 1),
                   'sub/deep/.gitkeep': ''})
+    # ... and a symbolic link to a contract of the same tree (two names, one file): both names are entries of the directory content
+    files['sub/AliasOfMany.sol'] = ('symlink', '../Many.sol')
     for rel, text in files.items():
-        open(os.path.join(root, 'proj', rel), 'w').write(text)
+        if isinstance(text, tuple):
+            os.symlink(text[1], os.path.join(root, 'proj', rel))
+        else:
+            open(os.path.join(root, 'proj', rel), 'w').write(text)
     binary = os.path.join(chk.world.build, 'solstat')
     n = 12 if chk.quick else 40
     seen = {}
@@ -391,7 +396,10 @@ def creation_histories(chk, files, binary):
                 d = os.path.dirname(rel)
                 if d:
                     os.makedirs(os.path.join(proj, d), exist_ok=True)
-                open(os.path.join(proj, rel), 'w').write(files[rel])
+                if isinstance(files[rel], tuple):
+                    os.symlink(files[rel][1], os.path.join(proj, rel))
+                else:
+                    open(os.path.join(proj, rel), 'w').write(files[rel])
             listings.add(tuple(os.listdir(proj)) + tuple(os.listdir(os.path.join(proj, 'sub'))))
             cwd = os.path.join(root, 'cwd')
             os.makedirs(cwd)
